@@ -57,6 +57,11 @@ def fixed_cases(tier):
                     "triples": [[a, b, ["l", "collect"]] for a in range(n) for b in range(n)]})
     for spec in C.run_count_specs([16, 17, 64, 65, 128, 129, 255, 256, 257]):
         out.append({"spec": spec, "base": S.simple_config([]), "seed": 0, "triples": [[0, 1, ["l"]]]})
+    # span matrix: MAX - MIN on / next to a power of two with seven runs; last run crossing MIN + 2^8 / 2^16
+    for spec in C.span_specs():
+        n = len(spec["variants"])
+        out.append({"spec": spec, "base": S.simple_config([]), "seed": 2,
+                    "triples": [[a, b, ["l", "collect"]] for a in range(n) for b in range(n) if a in (0, 1, 2, n - 1) or b in (0, 5, n - 2, n - 1) or a == b]})
     # run-length matrix: end points at the run boundaries
     for spec in C.run_length_specs({(1, 64), (63, 64), (64, 64), (65, 64), (64, 1), (65, 65), (127, 128), (128, 128), (129, 63), (255, 1), (256, 63), (257, 65), (2, 128)}):
         vals = [int(v["disc"]) for v in spec["variants"]]
